@@ -65,6 +65,23 @@ def gen(rng, tier):
     if rng.random() < 0.4:
         oid = rng.choice(ids)
         script.setdefault('-1|init|0', []).append(scenario.future_action(rng, oid) if oid in W.FUTS else scenario.stock_action(rng, oid))
+    if rng.random() < 0.3:
+        # handlers registered with subscribe_event that try to place an order: of the closed phases' events and their brackets, and of the order
+        # events the broker raises from its own before_trading / after_trading processing (a limit order resting until the close)
+        subs = []
+        for _ in range(rng.randint(1, 3)):
+            oid = rng.choice(ids)
+            act = scenario.future_action(rng, oid) if oid in W.FUTS else scenario.stock_action(rng, oid)
+            subs.append(dict(ev=rng.choice(['PRE_BEFORE_TRADING', 'BEFORE_TRADING', 'POST_BEFORE_TRADING', 'PRE_AFTER_TRADING', 'AFTER_TRADING', 'POST_AFTER_TRADING',
+                                            'ORDER_UNSOLICITED_UPDATE', 'ORDER_UNSOLICITED_UPDATE', 'ORDER_CREATION_PASS']), acts=[act], every=1, max=rng.choice([3, 10])))
+        scn['subs'] = subs
+        rest = rng.choice(ids)
+        for i in range(scn['start_i'], scn['end_i'] + 1):
+            if rng.random() < 0.6:
+                ks = [k for k in script if k.startswith('%d|handle_bar|' % i)]
+                key = ks[0] if ks else '%d|handle_bar|0' % i
+                script.setdefault(key, []).append(dict(op='buy_open', id=rest, amt=1, style=['lim', 0.93]) if rest in W.FUTS
+                                                  else dict(op='order_shares', id=rest, amt=100, style=['lim', 0.93]))
     scn['script'] = script
     if rng.random() < 0.3:
         scn['callbacks'] = rng.sample(['before_trading', 'open_auction', 'handle_bar', 'after_trading'], rng.randint(1, 3))
@@ -159,7 +176,7 @@ def analyse(scn, out):
     cbs = scn.get('callbacks', ['before_trading', 'open_auction', 'handle_bar', 'after_trading'])
     per = {}
     for m in trace:
-        if m['k'] == 'user0' and m['ph'] != 'init':
+        if m['k'] == 'user0' and m['ph'] in ('before_trading', 'open_auction', 'handle_bar', 'after_trading'):
             per.setdefault(dint_of(m['snap']['trd']), []).append(m['ph'])
     order = {'before_trading': 0, 'open_auction': 1, 'handle_bar': 2, 'after_trading': 3}
     for d in exp_days:
@@ -197,6 +214,18 @@ def analyse(scn, out):
             cx.keys.add(repr(('REFUSE', m0['ph'], m0['act']['op'])))
             if not refused or any(n.startswith('ORDER') or n == 'TRADE' for n in inner):
                 cx.hit('C08.order_not_refused', dict(op=m0['act']['op'], ph=m0['ph']), dict(act=m0['act'], exc=exc, events=inner[:6], ret=m1.get('ret')))
+    # ... also from a handler registered with subscribe_event: no order may come into being while a BEFORE_TRADING / AFTER_TRADING event (or one of
+    # its brackets) is being published
+    closed = None
+    for m in trace:
+        if m['k'] == 'ev0' and m['ev'] in ('PRE_BEFORE_TRADING', 'BEFORE_TRADING', 'POST_BEFORE_TRADING', 'PRE_AFTER_TRADING', 'AFTER_TRADING', 'POST_AFTER_TRADING'):
+            closed = m['ev']
+        elif m['k'] == 'ev1' and m['ev'] == closed:
+            closed = None
+        elif m['k'] == 'ev0' and closed and m['ev'] in ('ORDER_PENDING_NEW', 'TRADE'):
+            cx.hit('C08.order_not_refused', dict(op='handler', ph=closed), dict(event=m['ev'], during=closed, dt=m['snap']['cal'], payload=m.get('payload')))
+    if scn.get('subs'):
+        cx.keys.add(repr(('SUBS', tuple(sorted(set(x['ev'] for x in scn['subs']))))))
     return cx
 
 
@@ -205,7 +234,7 @@ globals().update(acct_prop.make(
     coq=['Model/Calendar.v', 'Model/EventLoop.v', 'Model/Phases.v', 'Proofs/CalendarFacts.v', 'Proofs/EventLoopFacts.v', 'Gen/ApiPhases.v'], gen_mods=['ApiPhases'],
     rule=('random calendars (holidays, gaps), single-day ranges, ranges starting / ending on non-trading days, daily and minute frequency (stock: 240 '
           'bars a day, futures: the data source\'s minutes), strategies with any subset of callbacks, universe changes in the middle of the day, universes whose members are de-listed / expire inside the range, '
-          'order calls in init / before_trading / after_trading; a case is one whole run: the published BEFORE_TRADING / OPEN_AUCTION / BAR / '
+          'order calls in init / before_trading / after_trading and from handlers of those phases\' events and of the order events the broker raises while it processes them; a case is one whole run: the published BEFORE_TRADING / OPEN_AUCTION / BAR / '
           'AFTER_TRADING / SETTLEMENT sequence with its clocks replayed through Model/EventLoop.v; distinct non-trivial = distinct (frequency x '
           'range length x off-calendar bounds x universe changes x callback subset) classes plus refused (phase x API) pairs'),
     assumptions=['minute runs with a stock and a futures account together are covered by the monitors only (the union of sessions is data dependent)']))
